@@ -213,7 +213,11 @@ func NumToStr(f float64) (string, bool) {
 	if f == math.Floor(f) && math.Abs(f) < 9007199254740992 {
 		return strconv.FormatInt(int64(f), 10), true // C16: integral values below 2^53 print without exponent or fraction
 	}
-	// non-integral: %.14g and the shortest round-trip form must coincide and use no exponent
+	// non-integral: %.14g (PUC-Rio) and the shortest round-trip form (gopher-lua) must coincide and use no exponent;
+	// the shortest form switches to an exponent from 1e6 on (C16 only demands that the text reads back as the value)
+	if math.Abs(f) >= 1e6 {
+		return "", false
+	}
 	s := strconv.FormatFloat(f, 'g', 14, 64)
 	if strings.ContainsAny(s, "eE") {
 		return "", false
